@@ -586,8 +586,9 @@ func (h *harness) shardCases(r *gen.Rand, n int) {
 		nd := gen.Pick(r, []int{0, 1, 2, 3, 4, 6})
 		var docs []docSpec
 		runes := 0
+		noMeta := i%7 == 6 // a shard where no document carries symbol metadata
 		for j := 0; j < nd; j++ {
-			d := genDoc(r, rp, j, 14, runes, true)
+			d := genDocM(r, rp, j, 14, runes, !noMeta, noMeta)
 			docs = append(docs, d)
 			if d.effSkip() == index.SkipReasonNone {
 				runes += countRunes(d.Content)
